@@ -250,10 +250,16 @@ def run_rx(authic, batches):
     return res, _vtab(r.verlog)
 
 
-def run_e2e(code, curt, size, authic, ki, memos, sched):
+def run_e2e(code, curt, size, authic, ki, memos, sched, hist=()):
+    """constructor (code, curt, size), then the history of property assignments, then rend of every memo, then scheduled delivery"""
     TM = make_tm()
     vid = key(ki)["vid"] if ki is not None else None
-    s = TM(code=code, curt=curt, size=size, keep=keep(), vid=vid, mids=[mid_of(m[1]) for m in memos])
+    try:
+        s = TM(code=code, curt=curt, size=size, keep=keep(), vid=vid, mids=[mid_of(m[1]) for m in memos])
+        for what, val in hist:
+            setattr(s, what, val)          # .code / .curt / .size property setters
+    except Exception as ex:
+        return [("cfg-raise", type(ex).__name__)], [], [], None
     rends = []
     for text, _ms, _src in memos:
         try:
@@ -282,7 +288,7 @@ def run_e2e(code, curt, size, authic, ki, memos, sched):
         if (v, ser) not in seen:
             seen.add((v, ser))
             stab.append((v.encode(), ser, sig))
-    return [("rend",) + tuple(rends), ("rx",) + tuple(res)], stab, _vtab(r.verlog), s.size
+    return [("cfg", s.code.encode(), bool(s.curt), s.size), ("rend",) + tuple(rends), ("rx",) + tuple(res)], stab, _vtab(r.verlog), s.size
 
 
 def run_tx(grams, script, calls):
